@@ -369,7 +369,10 @@ Internal ==
   \/ \E w \in Workers : SyncWake(w, "assigned") \/ SyncWake(w, "drainchange") \/ SyncWake(w, "timeout")
 
 Spec == Init /\ [][Next]_vars
-FairSpec == Spec /\ WF_vars(Internal)
+FairSpec ==
+  /\ Spec
+  /\ \A c \in Clients : WF_vars(StreamSend(c) \/ StreamWake(c) \/ StreamFin(c))
+  /\ \A w \in Workers : WF_vars(SyncWake(w, "assigned") \/ SyncWake(w, "drainchange") \/ SyncWake(w, "timeout"))
 
 -----------------------------------------------------------------------------
 (* Snapshot in the shape of SchedPreds.                                     *)
